@@ -398,18 +398,26 @@ def _strategy_base():
                 else:
                     self.take_profit = legs
 
+        def _log_liq(self):
+            if self.spec.get('log_liq'):
+                p = self.position
+                TRACE.append(('liq', self.symbol, now(), float(p.liquidation_price), float(p.bankruptcy_price), p.entry_price, p.qty))
+
         def on_open_position(self, order):
             self._log('on_open_position', getattr(order, '_vf_oid', -1))
+            self._log_liq()
             self._apply_exits(self.spec.get('on_open'), self.position.entry_price)
             if self.spec.get('raise') == 'on_open_position':
                 raise RuntimeError('scripted failure')
 
         def on_increased_position(self, order):
             self._log('on_increased_position', getattr(order, '_vf_oid', -1))
+            self._log_liq()
             self._apply_exits(self.spec.get('on_increased'), self.position.entry_price)
 
         def on_reduced_position(self, order):
             self._log('on_reduced_position', getattr(order, '_vf_oid', -1))
+            self._log_liq()
             self._apply_exits(self.spec.get('on_reduced'), self.position.entry_price)
 
         def on_close_position(self, order):
